@@ -9,7 +9,7 @@ import (
 	"github.com/spf13/afero"
 )
 
-const c11HandleOps = 9
+const c11HandleOps = 13
 
 func c11Handle(h afero.File, op int) {
 	buf := make([]byte, 1)
@@ -32,17 +32,24 @@ func c11Handle(h afero.File, op int) {
 		h.Name()
 	case 8:
 		h.Close()
+	case 9:
+		h.ReadAt(buf, 1)
+	case 10:
+		h.WriteAt([]byte("z"), 1)
+	case 11:
+		h.WriteString("y")
+	case 12:
+		h.Readdir(-1)
 	}
 }
 
-// Fields whose unsynchronised access is a listed finding.
-const c11KnownFileFields = "C11-file-state-read-before-lock:File.info@File).Write,C11-file-state-read-before-lock:File.info@File).WriteAt,C11-file-state-read-before-lock:File.info@File).WriteString,C11-file-state-read-before-lock:File.info@File).Truncate,C11-file-state-read-before-lock:File.info@File).Read,C11-file-state-read-before-lock:File.info@File).ReadAt,C11-file-state-read-before-lock:File.info@File).Readdirnames"
-
-const c11KnownPersisterFields = "C11-create-looks-up-parent-outside-lock:MetadataPersister.root@STFS).Create,C11-create-looks-up-parent-outside-lock:MetadataPersister.rootIsEmptyString@STFS).Create," +
-	"C11-create-looks-up-parent-outside-lock:IndexStore.rows@STFS).Create," +
-	"C11-restore-goroutine-outside-io-lock:IndexStore.rows@File).Read,C11-restore-goroutine-outside-io-lock:IndexStore.rows@File).Seek," +
+// Fields whose unsynchronised access is a listed (open) finding: "<finding id>:<field>@<API method>".
+const c11KnownFields = "C11-restore-goroutine-outside-io-lock:IndexStore.rows@File).Read,C11-restore-goroutine-outside-io-lock:IndexStore.rows@File).Seek," +
+	"C11-restore-goroutine-outside-io-lock:IndexStore.rows@File).ReadAt," +
 	"C11-restore-goroutine-outside-io-lock:Drive.tape@File).Read,C11-restore-goroutine-outside-io-lock:Drive.tape@File).Seek," +
+	"C11-restore-goroutine-outside-io-lock:Drive.tape@File).ReadAt," +
 	"C11-restore-goroutine-outside-io-lock:MetadataPersister.root@File).Read,C11-restore-goroutine-outside-io-lock:MetadataPersister.rootIsEmptyString@File).Read," +
+	"C11-restore-goroutine-outside-io-lock:MetadataPersister.root@File).ReadAt,C11-restore-goroutine-outside-io-lock:MetadataPersister.rootIsEmptyString@File).ReadAt," +
 	"C11-restore-goroutine-outside-io-lock:MetadataPersister.root@File).Seek,C11-restore-goroutine-outside-io-lock:MetadataPersister.rootIsEmptyString@File).Seek"
 
 // Harness_C11_handle_calls_are_serialised: two threads use one open handle; every pair of handle methods.
@@ -62,10 +69,10 @@ func Harness_C11_handle_calls_are_serialised() {
 	vm.ThreadBegin(2)
 	c11Handle(h, b)
 	vm.ThreadEnd()
-	vm.RaceCheck(c11KnownFileFields + "," + c11KnownPersisterFields)
+	vm.RaceCheck(c11KnownFields)
 }
 
-const c11FSOps = 8
+const c11FSOps = 13
 
 func c11FS(v *verifFS, op int, name string) {
 	switch op {
@@ -97,6 +104,20 @@ func c11FS(v *verifFS, op int, name string) {
 			h.Read(buf)
 			h.Close()
 		}
+	case 8:
+		v.FS.Chown(name, 1, 2)
+	case 9:
+		v.FS.MkdirAll(name+"/sub", 0o755)
+	case 10:
+		v.FS.RemoveAll(name)
+	case 11:
+		v.FS.SymlinkIfPossible(name, "/link")
+	case 12:
+		h, err := v.FS.OpenFile(name, os.O_RDWR|os.O_CREATE, 0o644)
+		if err == nil {
+			h.Write([]byte("x"))
+			h.Close()
+		}
 	}
 }
 
@@ -117,7 +138,7 @@ func Harness_C11_filesystem_calls_are_serialised() {
 	vm.ThreadBegin(2)
 	c11FS(v, b, nb)
 	vm.ThreadEnd()
-	vm.RaceCheck(c11KnownFileFields + "," + c11KnownPersisterFields)
+	vm.RaceCheck(c11KnownFields)
 }
 
 // Harness_C11_reader_does_not_keep_drive: after a call returns, no helper goroutine may be parked while it
